@@ -25,7 +25,13 @@ def declare_problem(P, objective, weights=None):
     pb = ps.SchedulingProblem(name="opt", horizon=P.int("hz", ph=30))
     a = make_task(P, "A", "fixed")
     b = make_task(P, "B", "var", vmin=True, vmax=True)
-    ps.TaskPrecedence(task_before=a.obj, task_after=b.obj, offset=P.int("off", ph=1))
+    if objective == "makespan_either_order":
+        # the precedences are only operands of a connective: none of them is a rule of its own
+        ps.Or(list_of_constraints=[ps.TaskPrecedence(task_before=a.obj, task_after=b.obj, offset=P.int("off", ph=1)),
+                                   ps.TaskStartAt(task=a.obj, value=P.int("a_at", ph=1))])
+        objective = "makespan"
+    else:
+        ps.TaskPrecedence(task_before=a.obj, task_after=b.obj, offset=P.int("off", ph=1))
     objs = []
     if objective == "makespan":
         objs.append(ps.ObjectiveMinimizeMakespan())
@@ -282,10 +288,10 @@ def ob_optimum_claims(ctx, path):
         v, m = _decide(path, ctx, list(base) + [better, Not(And(pushed))])
         return _result(v, m, "the final unsat stack does not cover every strictly better schedule", ctx)
     if ek == "after_sat_without_push" and not ctx.shape_slow and not ctx.shape_ramp:
+        # whatever made the loop stop here (a declared bound, a bound the solver computed for itself), the claim "this is
+        # the optimum" is justified iff no base-feasible schedule is strictly better
         bounds = ctx.solver._objective._bounds
-        if bounds is None:
-            return _structural(path, ctx, f"loop stopped after a sat model with no bound, no limit and a fast clock: {_trace(ctx)}")
-        want = bounds[0] if kind == "minimize" else bounds[1]
+        want = None if bounds is None else (bounds[0] if kind == "minimize" else bounds[1])
         # violated iff the loop stops here although a strictly better base-feasible schedule exists
         # (the declared bounds being valid for every schedule: the user's promise)
         base0 = stub.checks[-1]["frames"][0]
@@ -303,7 +309,7 @@ def ob_optimum_claims(ctx, path):
                 if tcopy is not None:
                     promised += [tcopy >= formula.to_z3(o._bounds[0]), tcopy <= formula.to_z3(o._bounds[1])]
         v, m = _decide(path, ctx, copy + [better] + promised)
-        return _result(v, m, f"stopped claiming the optimum at {m_last}, but the bound of the {kind} direction is {want}", ctx)
+        return _result(v, m, f"stopped claiming the optimum at {m_last} although a strictly better schedule exists (bound of the {kind} direction handed to the loop: {want})", ctx)
     return {"status": "unsat", "queries": 0}
 
 
@@ -340,7 +346,7 @@ def shapes(tier):
     out = []
     thorough = tier == "thorough"
     K = 7 if thorough else 5
-    objectives = ["makespan", "flowtime", "start_latest", "min_bounded", "max_bounded", "min_user", "max_user", "min_cost", "max_utilization"]
+    objectives = ["makespan", "flowtime", "start_latest", "min_bounded", "max_bounded", "min_user", "max_user", "min_cost", "max_utilization", "makespan_either_order"]
     for obj in objectives:
         iters = [None, 1, 2, 3] + ([4, 5] if thorough else [])
         for mi in iters:
